@@ -342,7 +342,35 @@ pub fn run_format(src: &[u8], o: &Opts) -> (Outcome, Vec<u8>) {
     }
 }
 
+/// How a source behaves when compiled: the error codes, or the verdicts and
+/// matches of its rules on three fixed buffers.
+pub fn behaviour(src: &[u8]) -> String {
+    catch(AssertUnwindSafe(|| {
+        let mut c = yara_x::Compiler::new();
+        let ok = c.add_source(src).is_ok();
+        if !ok || !c.errors().is_empty() {
+            let mut codes: Vec<String> = c.errors().iter().map(|e| e.code().to_string()).collect();
+            codes.sort();
+            return format!("errors:{}", codes.join(","));
+        }
+        let rules = c.build();
+        let bufs: [&[u8]; 3] = [b"", b"foo abc x\x41y a\\b with // not a comment \x01\x02\x03 ab+c xy", &[0x4d, 0x5a, 0x90, 0, 3, 0, 0, 0, 0xff, 0xfe, 0x11, 0x22, 0x33, 0x44, 0x55, 0x66]];
+        let mut out = String::new();
+        for b in bufs {
+            let mut s = yara_x::Scanner::new(&rules);
+            match s.scan(b) {
+                Ok(res) => { let mut v: Vec<String> = res.matching_rules().map(|r| format!("{}{:?}", r.identifier(),
+                        r.patterns().map(|p| (p.identifier().to_string(), p.matches().map(|m| m.range()).collect::<Vec<_>>())).collect::<Vec<_>>())).collect(); v.sort(); out.push_str(&v.join(";")); }
+                Err(e) => out.push_str(&format!("scan-error:{e}")),
+            }
+            out.push('|');
+        }
+        out
+    })).unwrap_or_else(|p| format!("panic:{p}"))
+}
+
 pub struct FmtObs {
+    pub same_behaviour: bool,
     pub in_sig: Vec<(SyntaxKind, Vec<u8>)>, pub out1: Outcome, pub out1_text: Vec<u8>,
     pub out1_sig: Vec<(SyntaxKind, Vec<u8>)>, pub out2: Outcome, pub out2_text: Vec<u8>,
 }
@@ -355,7 +383,8 @@ pub fn observe(src: &[u8], o: &Opts) -> FmtObs {
         let (o2, t2) = run_format(&out1_text, o);
         (s, o2, t2)
     } else { (vec![], Outcome::Ok(false), vec![]) };
-    FmtObs { in_sig, out1, out1_text, out1_sig, out2, out2_text }
+    let same_behaviour = if let Outcome::Ok(_) = out1 { src == out1_text.as_slice() || behaviour(src) == behaviour(&out1_text) } else { true };
+    FmtObs { same_behaviour, in_sig, out1, out1_text, out1_sig, out2, out2_text }
 }
 
 /// The clauses of the property that fail on an observation (same definitions as
@@ -370,6 +399,7 @@ pub fn failing_clauses(src: &[u8], ob: &FmtObs) -> Vec<&'static str> {
         Outcome::Ok(m) => {
             if ob.in_sig != ob.out1_sig { f.push("tokens"); }
             if *m != (src != ob.out1_text.as_slice()) { f.push("modified-flag"); }
+            if !ob.same_behaviour { f.push("behaviour"); }
             match &ob.out2 {
                 Outcome::Ok(m2) => { if ob.out2_text != ob.out1_text || *m2 { f.push("idempotence"); } }
                 _ => f.push("idempotence"),
@@ -771,7 +801,7 @@ pub fn run(args: &[String]) -> i32 {
             let out1_id = it.id(&[b"T:".as_slice(), &ob.out1_text].concat());
             let out1_sig = coq_sig(&ob.out1_sig, &mut it);
             let out2_id = it.id(&[b"T:".as_slice(), &ob.out2_text].concat());
-            let case = format!("CFmt (mkFmt {} {} {} {} {} {} {} {})", in_id, coq_bool(utf8), in_sig, fmt_outcome_coq(&ob.out1), out1_id, out1_sig, fmt_outcome_coq(&ob.out2), out2_id);
+            let case = format!("CFmt (mkFmt {} {} {} {} {} {} {} {} {})", in_id, coq_bool(utf8), in_sig, fmt_outcome_coq(&ob.out1), out1_id, out1_sig, fmt_outcome_coq(&ob.out2), out2_id, coq_bool(ob.same_behaviour));
             let mut replay = format!("{{\"index\":{},\"kind\":\"fmt\",\"source_hex\":\"{}\",\"source\":{},\"options\":{},\"outcome\":{},\"failing_clauses\":{},\"class\":{}",
                 index, hex(&src_bytes), json_str(&String::from_utf8_lossy(&src_bytes)), o.json(), json_str(&format!("{:?}", ob.out1)),
                 format!("[{}]", failing.iter().map(|f| json_str(f)).collect::<Vec<_>>().join(",")), json_str(&class));
@@ -866,7 +896,7 @@ fn probe(path: &str) -> i32 {
     for c in &f { println!("class: {}", classify(&src, &o, c)); }
     if let (Some(b), Some(c)) = (std::env::var("C15_MINIMISE").ok(), f.first()) {
         let class = classify(&src, &o, c);
-        let clause: &'static str = match *c { "idempotence" => "idempotence", "tokens" => "tokens", "panic" => "panic", "hang" => "hang", "modified-flag" => "modified-flag", _ => "unexpected-error" };
+        let clause: &'static str = match *c { "idempotence" => "idempotence", "tokens" => "tokens", "behaviour" => "behaviour", "panic" => "panic", "hang" => "hang", "modified-flag" => "modified-flag", _ => "unexpected-error" };
         let m = minimise_with(&src, &o, clause, &class, b.parse().unwrap_or(5000));
         let mo = observe(&m, &o);
         println!("--- minimised ({} bytes)\n{:?}\n--- pass 1\n{:?}\n--- pass 2\n{:?}", m.len(), String::from_utf8_lossy(&m), String::from_utf8_lossy(&mo.out1_text), String::from_utf8_lossy(&mo.out2_text));
